@@ -35,7 +35,7 @@ fn h_align(a: u64, b: u64, c: u64, d: u64, e: u64) -> u64 {
     std::hint::black_box(&x);
     a.wrapping_add(b)
 }
-fn helper_by_kind(k: &str) -> rbpf::ebpf::Helper {
+pub(crate) fn helper_by_kind(k: &str) -> rbpf::ebpf::Helper {
     match k {
         "h0" => h0, "h1" => h1, "h2" => h2, "h3" => h3, "align" => h_align,
         "rsp" => unsafe { std::mem::transmute::<unsafe extern "C" fn(u64, u64, u64, u64, u64) -> u64, rbpf::ebpf::Helper>(verif_rsp_probe) },
